@@ -100,12 +100,18 @@ func replicaChecks(res *common.Result, cfg Config, work string, s *apphist.Sim) 
 			res.Count("monitor:C01.replica")
 		}
 	}
-	if want("C06") && cfg.CheckTx {
+	if (want("C06") || want("C01")) && cfg.CheckTx {
 		quiet := filterLines(lines, func(k string) bool { return k == "check" || k == "query" })
 		if b := run("c06", quiet); b != nil {
 			if i, d := firstDivergence(consensusRecs(s.Recs, isCons), consensusRecs(b.Recs, isCons), false); i >= 0 {
-				res.Violations = append(res.Violations, common.Violation{Property: "C06", Kind: "mempool-interference",
-					Detail: "block execution differs between a node that served CheckTx/Query calls and one that did not: " + d, Ops: lines})
+				if want("C06") {
+					res.Violations = append(res.Violations, common.Violation{Property: "C06", Kind: "mempool-interference",
+						Detail: "block execution differs between a node that served CheckTx/Query calls and one that did not: " + d, Ops: lines})
+				}
+				if want("C01") {
+					res.Violations = append(res.Violations, common.Violation{Property: "C01", Kind: "replica-divergence-mempool",
+						Detail: "two replicas fed the same blocks differ because one of them also served CheckTx/Query calls (node-local traffic): " + d, Ops: lines})
+				}
 			}
 			res.Count("monitor:C06.quiet-replica")
 		}
